@@ -452,7 +452,6 @@ def execute(case):
                        vals=[[n, _same(m1.get(n, float("nan")), v)] for n, v in der0[q]],
                        sig="%s/%s/%s" % (level, q, cls)))
     if case["undo"] != "none":
-        import numpy as np  # noqa
         for tnx, tny, tden, r in case["steps"]:
             _apply(world, ov, path, (tnx / tden, tny / tden), math.atan2(r[1], r[0]) + TWO_PI * r[3])
         back, _ = walk(world, ov)
